@@ -51,6 +51,7 @@ ASSUMPTIONS = [
     "if it is, only at a first parent build that ships it",
 ]
 REQUIRED_FEATURES = ["A:component-merge", "A:side-line-build-shipped-after-main-line-build",
+                     "A:side-line-shares-ancestor-build-with-shipped-main-line",
                      "A:component-commit-built-twice", "A:pin-names-second-build-of-a-commit",
                      "A:second-build-number-ships-first", "A:repeated-request", "A:other-text-first",
                      "A:component-build-without-own-commit", "B:repeated-request", "A:ships", "A:bump-without-own-matching-commit", "A:parent-two-branches", "A:parent-merge",
@@ -91,6 +92,10 @@ def _merge_comps(n):
             for match in gm.subsets(ids):
                 out.append({"parents": parents, "heads": [["release/1.0", n]], "tags": tags, "match": match, "major": 1})
     return out
+
+
+def _merge_full_comps(n):
+    return [c for c in _merge_comps(n) if len(c["tags"]) == n]
 
 
 def _twice_built_comps(n_max, d_max):
@@ -152,6 +157,7 @@ _A_GROUPS = {
         ("lin4full/p3", ("linear-full", 4), (3,), (PB1,), True, 0, 8, False, "single"),
         ("merge3/p2", ("merge", 3), (1, 2), (PB1, PB2), True, 1, 32, False, "single"),
         ("twice3/p2", ("twice", 3), (1, 2), (PB1, PB2), True, 1, 24, False, "single"),
+        ("merge4full/p2b1", ("merge-full", 4), (1, 2), (PB1,), True, 0, 24, False, "single"),
     ],
     "thorough": [
         ("lin4/p2", ("linear", 4), (1, 2), (PB1, PB2), True, 2, 32, True, "repeat"),
@@ -161,7 +167,7 @@ _A_GROUPS = {
         ("lin3/p4merges", ("linear-full", 3), (4,), (PB1, PB2), True, 0, 192, False, "single"),
         ("fork/p3", ("fork", 4), (1, 2, 3), (PB1, PB2), False, 1, 192, False, "single"),
         ("merge3/p2", ("merge", 3), (1, 2), (PB1, PB2), True, 2, 16, False, "repeat"),
-        ("merge3/p3", ("merge", 3), (3,), (PB1, PB2), True, 1, 128, False, "single"),
+        ("merge3/p3", ("merge", 3), (3,), (PB1, PB2), True, 0, 64, False, "single"),
         ("merge4/p2", ("merge", 4), (1, 2), (PB1, PB2), True, 1, 96, False, "single"),
         ("twice3/p2", ("twice-all", 3), (1, 2), (PB1, PB2), True, 2, 16, False, "single"),
         ("twice3/p3b1", ("twice-all", 3), (3,), (PB1,), True, 1, 64, False, "single"),
@@ -181,6 +187,8 @@ def _comps(fam):
             _COMPS[fam] = _linear_comps(n, n_min=n, full_only=True)
         elif kind == "merge":
             _COMPS[fam] = _merge_comps(n)
+        elif kind == "merge-full":
+            _COMPS[fam] = _merge_full_comps(n)
         elif kind == "twice":
             _COMPS[fam] = _twice_built_comps(n, 1)
         elif kind == "twice-all":
@@ -283,7 +291,7 @@ def _judge_report(comp, par, report, compare_printed, info):
                              f"component build {key} is shipped first by parent build(s) {sorted(want)} but included_at "
                              f"is {sorted(got)}", sorted(got), sorted(want)))
         if extra:
-            problems.append(("included-at-wrong-build",
+            problems.append(("included-at-wrong-build/" + _wrong_build_class(comp, par, key, req[key], sorted(extra)[0]),
                              f"component build {key} is recorded as included at {sorted(extra)}, which is not a first "
                              f"parent build shipping it (first: {sorted(want)})", sorted(got), sorted(want)))
     info["dups"] = ndup
@@ -323,6 +331,38 @@ def _judge_report(comp, par, report, compare_printed, info):
         except (ValueError, KeyError, StopIteration) as e:
             problems.append(("printed-report-unparseable", repr(e), None, None))
     return problems
+
+
+def _wrong_build_class(comp, par, key, first_items, extra_item):
+    """Class of a wrong included_at entry, computed from the case:
+    build-not-shipping-it                      the pin of that parent build does not contain the component build
+    ancestor-of-shipped-build-via-side-line    it does, a first shipping build of the branch precedes it, and the
+                                               component build is reached from the later pin along a side line that
+                                               avoids the version pinned by the first shipping build
+    later-build-of-the-branch                  it does, but only through the version already shipped"""
+    _repo, pbranch, label = extra_item
+    ptags = set(par["tags"])
+    cand = None
+    for e in gm.c06_expected(par["parents"], par["heads"], par["tags"], []):
+        if e["branch"] == pbranch:
+            for b in e["builds"]:
+                if (gm.c07_parent_tag_label(b) if b in ptags else gm.NOT_BUILT) == label:
+                    cand = b
+    if cand is None:
+        return "build-not-shipping-it"
+    rc = gm.reach_masks(comp["parents"])
+    top = gm.pin_commit(par["pins"][cand - 1])
+    if not (rc[top] >> key[1]) & 1:
+        return "build-not-shipping-it"
+    avoid = {gm.pin_commit(par["pins"][pc - 1]) for pb, _l, pc in first_items if pb == pbranch}
+    stack, seen = [top], set()
+    while stack:
+        c = stack.pop()
+        if c in seen or c in avoid:
+            continue
+        seen.add(c)
+        stack.extend(comp["parents"][c - 1])
+    return "ancestor-of-shipped-build-via-side-line" if key[1] in seen and avoid else "later-build-of-the-branch"
 
 
 def check_scenario(case, acc, compare_printed=False):
@@ -420,6 +460,11 @@ def _features_A(case, info):
             if pb1 == pb2 and pc1 != pc2 and (rp[pc2] >> pc1) & 1:
                 if any(not (rc[a[1]] >> b[1]) & 1 and not (rc[b[1]] >> a[1]) & 1 for a in keys1 for b in keys2):
                     f.add("A:side-line-build-shipped-after-main-line-build")
+                    # ... and the two lines have a report-related build in common below them
+                    if any(not (rc[a[1]] >> b[1]) & 1 and not (rc[b[1]] >> a[1]) & 1
+                           and any((rc[a[1]] >> c[1]) & 1 and (rc[b[1]] >> c[1]) & 1 for c in req)
+                           for a in keys1 for b in keys2):
+                        f.add("A:side-line-shares-ancestor-build-with-shipped-main-line")
     # 'first' is a real choice: a later candidate of the same branch also ships the build
     pexp = gm.c06_expected(par["parents"], par["heads"], par["tags"], [])
     for e in pexp:
